@@ -105,7 +105,7 @@ class C07(HistoryProperty):
                 spec["nodes"].append({"k": "derive", "base": fid, "how": "with_options", "options": p, "id": "fder"})
                 spec["roots"].append("fder")
                 members.append("fder")
-        dg = U.DictGen(rng, cfg)
+        dg = U.DictGen(rng, cfg, no_list_keys=gen.hashable_required_keys(spec) | set(U.DISPATCH_KEYS))
         o = dg.fresh()
         ops = []
         nov = 0
